@@ -12,8 +12,10 @@ EXTENDS ZincWrite, Json, ZwCat
 
 Fields == <<"num", "esc", "frac", "dt", "coord", "sep", "nl", "mark", "list", "empty", "gap", "fin", "ng">>
 OneOff == {[DefaultStyle EXCEPT ![Fields[f]] = k] : f \in 1..Len(Fields), k \in 1..5}
+\* ... and the same single deviations in a document whose lines end CR LF (line ends meet every other choice)
+CrlfOff == {[s EXCEPT !.nl = 2] : s \in OneOff}
 Legal(sty) == \A f \in 1..Len(Fields) : sty[Fields[f]] <= StyleRanges[Fields[f]]
-Styles == {s \in OneOff : Legal(s)} \cup {ExtraStyles[i] : i \in 1..Len(ExtraStyles)}
+Styles == {s \in OneOff \cup CrlfOff : Legal(s)} \cup {ExtraStyles[i] : i \in 1..Len(ExtraStyles)}
 
 VARIABLES di, sty
 Init == di \in 1..Len(Docs) /\ sty \in Styles
